@@ -205,7 +205,7 @@ theorem chunked_roundtrip (cfg : DCfg) (x : XCfg) (ls : LState) (k : KeyE) (f : 
       (∀ e ∈ es, (execCmd x e.obj).isSome) ∧
       applyCmds [] (es.flatMap (fun e => (execCmd x e.obj).getD [])) =
         some [(k.key.val, .hash (pairVals items), 0)] := by
-  obtain ⟨es, ls', h1, h2, h3, h4, h5, h6, h7⟩ := nextValue_hash cfg ls k f items rest hobj hls hwf hne
+  obtain ⟨es, ls', h1, h2, h3, h4, h5, h6, h7, _⟩ := nextValue_hash cfg ls k f items rest hobj hls hwf hne
   refine ⟨es, ls', h1, h2, h3, h4, h5, ?_, ?_⟩
   · intro e he
     rw [execCmd_hash_chunk x e.obj (h4 e he).2.2.2.2.2.2.2]
